@@ -440,13 +440,14 @@ impl<W, R, T> CompilationScope<'_, W, R, T> {
                             }
                         }
                         let symbol = interner.get_or_intern(name);
+                        // a generic parameter is the nearest declaration of its name
+                        if gen_params.is_empty() && generic_param_names.contains(name) {
+                            return Ok(Arc::new(XType::XGeneric(symbol)));
+                        }
 
                         let t = self.get_item(&symbol);
                         match t {
                             None => {
-                                if generic_param_names.contains(name) {
-                                    return Ok(Arc::new(XType::XGeneric(symbol)));
-                                }
                                 Err(CompilationError::TypeNotFound {
                                     name: name.to_string(),
                                 }
